@@ -77,7 +77,11 @@ func c06gen(rng *rand.Rand, hp *Pool, cat []catEntry) c06op {
 	all := hp.Vals
 	n := func(fam ...string) string { return c06pick(rng, all, fam...).Name }
 	small := func() string { return fmt.Sprint(rng.Intn(7) - 3) }
-	switch rng.Intn(18) {
+	switch rng.Intn(19) {
+	case 18:
+		// small-int arithmetic whose results coincide with commonly shared values (0, 1, -1)
+		op := []string{"+", "-", "*", "/", "//", "%", "**", "<=>"}[rng.Intn(8)]
+		return c06op{"infix " + op, fmt.Sprintf("%d %s %d", rng.Intn(9)-4, op, rng.Intn(9)-4)}
 	case 16, 17:
 		// index expression whose index is an earlier value (ranges with and without step, ints, arrays of indices)
 		return c06op{"index by earlier value", fmt.Sprintf("%s[%s]", n("arr", "str", "range", "obj", "map"), n("range", "range", "int", "arr", "str"))}
@@ -131,6 +135,11 @@ func c06gen(rng *rand.Rand, hp *Pool, cat []catEntry) c06op {
 		return c06op{"prop " + p, fmt.Sprintf("%s.%s(%s)", n(), p, n())}
 	case 14:
 		op := gInfix[rng.Intn(len(gInfix))]
+		if rng.Intn(2) == 0 {
+			// operands of one numeric/str/arr family (the operator's own code path instead of its type error)
+			fam := [][]string{{"int"}, {"int", "float"}, {"float"}, {"str"}, {"arr"}}[rng.Intn(5)]
+			return c06op{"infix " + op, fmt.Sprintf("%s %s %s", n(fam...), op, n(fam...))}
+		}
 		return c06op{"infix " + op, fmt.Sprintf("%s %s %s", n(), op, n())}
 	default:
 		return c06op{"closure capture + call", fmt.Sprintf("{|d| [%s, d, %s]}(%s)", n(), n(), n())}
